@@ -13,6 +13,8 @@ const RUST_KEYWORDS: &[&str] = &[
 ];
 
 pub(crate) fn keyword_replace<'a>(needle: impl Into<Cow<'a, str>>) -> Cow<'a, str> {
+    #[cfg(graphql_client_verif)]
+    crate::verif_hooks::yield_point("shared.keyword_replace");
     let needle = needle.into();
     match RUST_KEYWORDS.binary_search(&needle.as_ref()) {
         Ok(index) => [RUST_KEYWORDS[index], "_"].concat().into(),
